@@ -274,7 +274,7 @@ int main(int argc, char **argv)
         spifconf_free_subsystem();
     }
     if (!mc_arg("only", NULL) || !strcmp(mc_arg("only", ""), "b")) {
-        mc_sys sys = { "varstore", NVOPS, v_name, v_fresh, v_enabled, v_apply, NULL, v_canon, v_teardown };
+        mc_sys sys = { "varstore", NVOPS, v_name, v_fresh, v_enabled, v_apply, NULL, v_canon, v_teardown, (int) mc_arg_int("lookahead", 1) };
         mc_e1_run(&sys, 12);
     }
     return mc_finish();
